@@ -1324,8 +1324,14 @@ class RealFloat(numbers.Rational):
 
         # step 6. check if rounding was exact (if so, we're done)
         if lost.is_zero():
-            # just choose one of the rounding modes (RTZ)
-            rand_rm = RoundingMode.RTZ
+            # the extended-precision value is representable at position `n`:
+            # either it did not move past `self` (round towards zero), or rounding
+            # to the random digits carried into the representable value above
+            # `self`, in which case every draw must round away from zero
+            if abs(xr) > abs(self):
+                rand_rm = RoundingMode.RAZ
+            else:
+                rand_rm = RoundingMode.RTZ
         else:
             # step 7. normalize `lost` so that `lost.n == n_rand`
             offset = lost._exp - (n_rand + 1)
